@@ -72,22 +72,40 @@ func TestVerifC06Numa(t *testing.T) {
 	if s := os.Getenv("VERIF_ONLY"); s != "" && s != "numa" {
 		only, _ = regexp.Compile(s)
 	}
+	var rp *c06NumaCase
+	{
+		var c c06NumaCase
+		if _, ok := env.ReplayData(&c); ok {
+			rp = &c
+		}
+	}
 	const gi = int64(1) << 30
 	kinds := []c06NumaKind{
 		{Name: "memory", Divisible: true, Unit: 1000, Step: 1000, Memory: true},
 		{Name: "memory-Gi", Divisible: true, Unit: gi * 1000, Step: gi * 1000, Memory: true},
 		{Name: "memory-via-Allocate", Divisible: true, Unit: gi * 1000, Step: gi * 1000, Memory: true, ViaRM: true},
-		{Name: "cpu-shared", Divisible: true, Unit: 1000, Step: 500},
-		{Name: "cpu-shared-via-Allocate", Divisible: true, Unit: 1000, Step: 500, ViaRM: true},
-		{Name: "cpu-shared+memory", Divisible: true, Unit: 1000, Step: 1000, WithMem: true},
-		{Name: "cpu-bound", Divisible: false, Unit: 1000, Step: 1000, CPUBind: true},
-		{Name: "cpu-bound-FullPCPUs-required", Divisible: false, Unit: 1000, Step: 1000, CPUBind: true, FullPCPUs: true},
+		{Name: "shared-cpu", Divisible: true, Unit: 1000, Step: 500},
+		{Name: "shared-cpu-via-Allocate", Divisible: true, Unit: 1000, Step: 500, ViaRM: true},
+		{Name: "shared-cpu+memory", Divisible: true, Unit: 1000, Step: 1000, WithMem: true},
+		{Name: "bound-cpu", Divisible: false, Unit: 1000, Step: 1000, CPUBind: true},
+		{Name: "bound-cpu-FullPCPUs-required", Divisible: false, Unit: 1000, Step: 1000, CPUBind: true, FullPCPUs: true},
 	}
 	alphabet := []int64{0, 1, 2, 3, 5, 8}
 	smt := c06NewLayout(1, 1, 2, 2, false).topology() // only CPUsPerCore()==2 is read from it by splitQuantity
+	emitted := 0
+	defer func() {
+		if emitted == 0 { // replay of a witness that belongs to another unit / --only without match: say so instead of nothing
+			r := mc.NewResult("C06", "numa-split-(nothing selected)", "enumeration")
+			r.Exhaustive = true
+			env.Emit(r)
+		}
+	}()
 	for _, kind := range kinds {
 		kind := kind
 		if only != nil && !only.MatchString(kind.Name) {
+			continue
+		}
+		if rp != nil && rp.Kind != kind.Name {
 			continue
 		}
 		res := mc.NewResult("C06", "numa-split-"+kind.Name, "enumeration")
@@ -101,6 +119,9 @@ func TestVerifC06Numa(t *testing.T) {
 		var total int64
 		for N := 2; N <= 4; N++ {
 			N := N
+			if rp != nil && rp.Nodes != N {
+				continue
+			}
 			dims := make([]int, 0, N+1)
 			for i := 0; i < N; i++ {
 				dims = append(dims, len(alphabet))
@@ -132,6 +153,9 @@ func TestVerifC06Numa(t *testing.T) {
 					resName = corev1.ResourceMemory
 				}
 				for req := int64(0); req <= sumHint+kind.Unit; req += kind.Step {
+					if rp != nil && (req != rp.Request || fmt.Sprint(hint) != fmt.Sprint(rp.Hint) || fmt.Sprint(free) != fmt.Sprint(rp.Free)) {
+						continue
+					}
 					loc.Evals++
 					requests := corev1.ResourceList{resName: c06Quantity(req, kind.Memory)}
 					var memReq int64
@@ -192,6 +216,9 @@ func TestVerifC06Numa(t *testing.T) {
 					}
 					mk := func() c06NumaCase {
 						return c06NumaCase{Kind: kind.Name, Nodes: N, Hint: hint, Free: free, Request: req, Result: fmt.Sprintf("%+v", got), Reasons: reasons}
+					}
+					if rp != nil {
+						fmt.Printf("REPLAY %s N=%d hint=%v free=%v request=%d -> result %+v reasons %v %s\n", kind.Name, N, hint, free, req, got, reasons, ps)
 					}
 					if ps != "" {
 						res.Violate(mc.Violation{Key: "C06|numa-split|" + kind.Name + "|panic", What: ps, Replay: mk()})
@@ -284,5 +311,6 @@ func TestVerifC06Numa(t *testing.T) {
 		}
 		res.Bounds = map[string]any{"numa_nodes": []int{2, 3, 4}, "free_alphabet_units": alphabet, "free_vectors_x_hints": total}
 		env.Emit(res)
+		emitted++
 	}
 }
